@@ -310,6 +310,41 @@ func TestConstructorBoxes2(t *testing.T) {
 	})
 }
 
+// TestVoxelBox: the voxel wrapper (NewVoxelSDF3) is a shape the library constructs as well: it reports the
+// wrapped shape's box and evaluates by trilinear interpolation of samples taken inside that box.
+func TestVoxelBox(t *testing.T) {
+	rec := ev.Get()
+	rapid.Check(t, func(t *rapid.T) {
+		S := rapid.SampledFrom([]float64{1, 10, 100}).Draw(t, "scale")
+		n := shape.GenExact3(t, S, rapid.IntRange(0, 2).Draw(t, "depth"))
+		b, err := shape.Build(n)
+		if err != nil {
+			rec.Count("discarded:constructor-rejected", 1)
+			rec.Case(false, "", "discarded")
+			return
+		}
+		cells := rapid.IntRange(2, 12).Draw(t, "cells")
+		sz := b.SDF3().BoundingBox().Size()
+		if !(sz.MinComponent() > 1.01*sz.MaxComponent()/float64(cells)) {
+			// an axis thinner than a voxel gets zero voxels: the constructor divides by that count
+			rec.Count("discarded:axis-thinner-than-a-voxel", 1)
+			rec.Case(false, "", "discarded")
+			return
+		}
+		v := sdf.NewVoxelSDF3(b.SDF3(), cells, nil)
+		bb := v.BoundingBox()
+		res := boxprobe.Probe3(t, v, S, func(p v3.Vec, val, out float64, how string) {
+			rec.Violation(t, "C01:voxel3", "NewVoxelSDF3(%s, %d cells) (box %v): Evaluate(%v) = %v at a point %v outside the box [%s]", n, cells, bb, p, val, out, how)
+		})
+		if res.BoxProblem != "" {
+			rec.Violation(t, "C01:voxel3:"+res.BoxProblem, "NewVoxelSDF3(%s, %d): box %v", n, cells, bb)
+		}
+		rec.Add("probes-outside-box", int64(res.Probes))
+		rec.Case(res.Interior > 0, ev.Key("voxel", n.String(), cells), "root:voxel3", fmt.Sprintf("nonempty=%v", res.Interior > 0))
+		rec.Sample("voxel3", map[string]any{"program": n.String(), "cells": cells, "box": fmt.Sprint(bb), "interior_samples": res.Interior, "probes": res.Probes})
+	})
+}
+
 // ---------------------------------------------------------------------------
 // regression cases (plain): minimised failures found by the campaigns above
 
